@@ -451,6 +451,90 @@ def run(lines, out, args):
                     got = "FAIL: the interrupted %s returned %r, neither the answer before (%r) nor after (%r) the mutation" % (ep, first, old, new)
                 elif any(x != new for x in later):
                     got = "FAIL: after the mutation %s keeps answering %r, the registry now holds %r (an answer computed before the mutation survived in the cache)" % (ep, later, new)
+            elif scen == "stale-rebase":
+                # a chain T <- M <- B; while B's uncached lookup is in flight (its answer from T already computed) M is re-based
+                # onto T2.  The interrupted call may answer from either chain; every later call answers from T2 and keeps doing so
+                # (C06: exactly the registries CURRENTLY reachable).  Also: the re-basing happens before the answer is computed.
+                state = {"armed": False, "pre": False}
+                base_reg = A.VerifyingAdapterRegistry if flavour == "verifying" else A.AdapterRegistry
+                T, T2 = base_reg(), base_reg()
+                M = base_reg((T,))
+                for R_, fac in ((T, fac1), (T2, fac2)):
+                    R_.register((IR,), IP, "", fac)
+                    R_.subscribe((IR,), IP, fac)
+
+                def hook(kind, lk, compute):
+                    if not state["armed"]:
+                        return compute()
+                    state["armed"] = False
+                    if state["pre"]:
+                        M.__bases__ = (T2,)
+                        return compute()
+                    r = compute()
+                    M.__bases__ = (T2,)
+                    return r
+                B = mkreg(flavour, hook)
+                B.__bases__ = (M,)
+                old, new = expect(ep, fac1), expect(ep, fac2)
+                for pre in (False, True):
+                    M.__bases__ = (T,)
+                    warm = ask(B, ep, ob)
+                    B.changed(B) if flavour == "push" else B._v_lookup.changed(None)     # cold caches again, same chain
+                    state["armed"], state["pre"] = True, pre
+                    first = ask(B, ep, ob)
+                    later = [ask(B, ep, ob) for _ in range(3)]
+                    if warm != old:
+                        got = "FAIL: before the re-basing %s answers %r, the chain holds %r" % (ep, warm, old)
+                    elif pre and first != new and flavour == "push":
+                        # (a generation-checking registry has verified its chain before the uncached walk started: the
+                        # interrupted call itself may still answer from the chain as it was)
+                        got = "FAIL: %s computed after a base registry was re-based answers %r, the current chain holds %r" % (ep, first, new)
+                    elif first not in (old, new):
+                        got = "FAIL: the interrupted %s returned %r, neither %r nor %r" % (ep, first, old, new)
+                    elif any(x != new for x in later):
+                        got = "FAIL: after a base registry was re-based during an uncached %s, later calls keep answering %r; the registries currently reachable hold %r" % (ep, later, new)
+                    if got != "ok":
+                        break
+            elif scen == "leak2":
+                # an uncached lookup that RAISES while the cache for the same provided interface is warm; then the registration goes
+                # away: nothing may keep the removed component alive
+                import weakref
+
+                class Boom2(Exception):
+                    pass
+                IR2 = InterfaceClass("IR2", (IR,), __module__="zi.gen")
+                state = {"boom": False}
+
+                def hook(kind, lk, compute):
+                    if state["boom"]:
+                        raise Boom2()
+                    return compute()
+                reg = mkreg(flavour, hook)
+                dead = []
+                for rnd_ in range(40):
+                    fac = mkfac("leak-%d" % rnd_)
+                    w = weakref.ref(fac)
+                    reg.register((IR,), IP, "", fac)
+                    reg.subscribe((IR,), IP, fac)
+                    ask(reg, ep, ob)                               # warm: the cached answer refers to fac
+                    state["boom"] = True
+                    try:
+                        if ep in ("lookup", "lookup1", "queryAdapter", "adapter_hook", "queryMultiAdapter"):
+                            reg.lookup((IR2,), IP, "")
+                        elif ep == "lookupAll":
+                            reg.lookupAll((IR2,), IP)
+                        else:
+                            reg.subscriptions((IR2,), IP)
+                    except Boom2:
+                        pass
+                    state["boom"] = False
+                    reg.unregister((IR,), IP, "", fac)
+                    reg.unsubscribe((IR,), IP, fac)
+                    del fac
+                    gc.collect()
+                    dead.append(w() is None)
+                if not all(dead):
+                    got = "FAIL: %d of %d unregistered components stay alive after an uncached %s raised while the cache for that interface was warm (a reference to the cache is leaked)" % (dead.count(False), len(dead), ep)
             elif scen == "leak":
                 class Boom(Exception):
                     pass
